@@ -442,6 +442,11 @@ impl<P: Payload> InitState<P> {
         self.next_stage
     }
 
+    #[cfg(dswd_vpncloud_verif)]
+    pub fn verif_failed_retries(&self) -> usize {
+        self.failed_retries
+    }
+
     pub fn every_second(&mut self, out: &mut MsgBuffer) -> Result<(), Error> {
         if self.next_stage == WAITING_TO_CLOSE {
             if self.close_time == 0 {
